@@ -449,6 +449,7 @@ def run(R):
     oka = any(q.atom_test(a.test)[:2] == ("lt", ("0", "max_tries")) and q.atom_test(a.test)[2] for a in asserts)
     R.check(oka, "C14.RETRY", top.qualname + ":positive", R.site(top), "max_tries > 0 is asserted (the last-attempt test is reachable)", "max_tries > 0 is no longer asserted")
 
+    common.safe_trigger_selects_failures(R, "C14.ONE-YIELD")
     # ---- AsyncEventHook: all handlers in one yield
     for mq in ("tools.AsyncEventHook.trigger", "tools.AsyncEventHook.safe_trigger"):
         m = repo.fn(mq)
